@@ -45,9 +45,14 @@ func runSolver(ctx context.Context, sp solverSpec, file string, timeoutS int) (s
 	cmd.Stderr = &out
 	cmd.Run()
 	txt := out.String()
-	first := strings.TrimSpace(txt)
-	if i := strings.Index(first, "\n"); i >= 0 {
-		first = strings.TrimSpace(first[:i])
+	first := ""
+	for _, ln := range strings.Split(txt, "\n") {
+		ln = strings.TrimSpace(ln)
+		if ln == "" || strings.HasPrefix(ln, "WARNING") {
+			continue
+		}
+		first = ln
+		break
 	}
 	switch first {
 	case "unsat", "sat", "unknown":
